@@ -23,6 +23,9 @@ with open(sys.argv[1]) as _f:
     plan = json.load(_f)
 script = sys.argv[2]
 sys.argv = [script] + sys.argv[3:]
+# as if the script had been started directly: its own directory heads sys.path (harness modules
+# named like a product module must not shadow it)
+sys.path[0] = os.path.dirname(os.path.abspath(script))
 store = os.path.realpath(plan["store"])
 real_open = builtins.open
 stats = {"raw_writes": 0, "bytes_written": 0, "short_writes": 0, "raw_reads": 0, "short_reads": 0, "bytes_read": 0,
